@@ -14,6 +14,7 @@ EXPLANATION = ("Necessary shape conditions of the bounded-FIFO behaviour, decide
                "(dimension rules shared with C15). Linearizability of the lock-free ring under contention is NOT decided. R02.1 also: no path of the lock-free ring's reserving functions takes a second reservation while the first is still held (computed typestate: a retry that re-reserves after a lost recede abandons a position for good).")
 EXPLANATION += " (R02.5) the dimension rules of C15 (no ordered comparison / checked arithmetic on absolute positions) hold in every function of the two rings, not only the index API; (R02.6) 'buffer full' is answered only when the reservation failed: from the Some edge of the reservation no path of publish / publish_movable hands the item or setter back; (R02.7) in the full-sync ring the lock is the reservation: payload writes and suspension points between leak_slot_internal and publish_leaked_internal happen with the lock held (shared with C01 R01.6)."
 EXPLANATION += ' (R02.8) an element leaves either ring whole: it is copied out (ptr::read) before its slot counts as free again, on every path and for every payload size; R02.2 also requires every crossbeam_channel::bounded(..) of the crate to be given BUFFER_SIZE itself.'
+EXPLANATION += " R02.2 also checks that every prelude alias hands its BUFFER_SIZE / MAX_STREAMS to the same-named const parameter of the type it names; R02.6 includes the crossbeam setter-send retry rule; (R02.9) C14's unique -> shared conversion rules."
 ASSUMPTIONS = ["interleaving-level correctness of AtomicMove's overshoot-and-recede protocol is not decided statically",
                "crossbeam-channel internals trusted"]
 
